@@ -2,6 +2,8 @@ package checks
 
 import (
 	"fmt"
+	"go/format"
+	"os"
 	"path/filepath"
 	"sort"
 	"strings"
@@ -96,6 +98,8 @@ func C01(r *core.Run) int {
 			// not a success: C15's business; counted here
 		}
 	}
+	// a second, shorter spec generated into the same directories: the files must be fully rewritten
+	rerunN := rerunShorter(r, vgen, outs, map[bool]int{false: 60, true: 400}[r.Thorough()])
 	// CLI cross-check on a sample: same verdict and same bytes as vgen
 	cliN := map[bool]int{false: 40, true: 300}[r.Thorough()]
 	cliChecked, cliDiff := crossCheckCLI(r, outs, cliN)
@@ -119,6 +123,7 @@ func C01(r *core.Run) int {
 		"status_by_family":    famStatus,
 		"templates_executed":  tl,
 		"cli_cross_checked":   cliChecked,
+		"rerun_into_same_dir": rerunN,
 		"cli_disagreements":   cliDiff,
 	}
 	return r.Finish(cov, []string{"the Go toolchain (go build, go/format) is the compile/format oracle", "vgen calls the same GenerateFile entry point as cmd/goag; a sample is re-run through the real CLI and compared byte-wise"})
@@ -181,4 +186,61 @@ func crossCheckCLI(r *core.Run, outs []*GenOutcome, n int) (int, int) {
 		diff += x[1]
 	}
 	return checked, diff
+}
+
+// rerunShorter generates a minimal spec into the output directory of n
+// already generated cases (same flags) and applies the per-file monitors
+// again: a successful run must leave valid files whatever was there before.
+func rerunShorter(r *core.Run, vgen string, outs []*GenOutcome, n int) int {
+	small := specgen.NewDoc("small")
+	small.Op("/s", "get", nil)
+	var cases []specgen.Case
+	var dirs []string
+	for _, g := range Sample(outs, n*3, r.Seed+21) {
+		if g.Status != "ok" || len(cases) >= n {
+			continue
+		}
+		c := g.P.Case
+		c.ID += "#rerun-with-shorter-spec"
+		c.Spec = small.Root
+		c.Raw = nil
+		c.Ext = ""
+		cases = append(cases, c)
+		dirs = append(dirs, g.P.Out)
+	}
+	if len(cases) == 0 {
+		return 0
+	}
+	root := filepath.Join(r.Scratch, "c01rerun")
+	placed, err := core.Place(root, cases)
+	if err != nil {
+		return 0
+	}
+	jobs := make([]core.Job, len(placed))
+	for i, p := range placed {
+		jobs[i] = p.Job()
+		jobs[i].Out = dirs[i]
+	}
+	res := r.RunJobs(vgen, jobs, workers(), 20e9)
+	for i, p := range placed {
+		rs := res[p.Case.ID]
+		if !rs.OK {
+			continue
+		}
+		for f := range rs.Files {
+			if !strings.HasSuffix(f, ".go") || strings.HasSuffix(f, "_test.go") {
+				continue
+			}
+			bs, err := os.ReadFile(filepath.Join(dirs[i], f))
+			if err != nil {
+				continue
+			}
+			if fb, ferr := format.Source(bs); ferr != nil {
+				r.Report(core.Violation{Case: p.Case.ID, Class: "gofmt", Message: f + ": does not parse after regenerating a shorter spec into the same directory: " + stripPos(ferr.Error()), Spec: string(p.Case.SpecBytes()), Flags: p.Case.Flags})
+			} else if string(fb) != string(bs) {
+				r.Report(core.Violation{Case: p.Case.ID, Class: "gofmt", Message: f + ": not gofmt-stable after regenerating into the same directory", Spec: string(p.Case.SpecBytes()), Flags: p.Case.Flags})
+			}
+		}
+	}
+	return len(placed)
 }
